@@ -265,6 +265,9 @@ func (e *Exec) step(fr *frame, st *State, in ssa.Instruction, b *ssa.BasicBlock)
 			mt := x.X.Type().Underlying().(*types.Map)
 			ks := e.ti.sortOf(mt.Key())
 			st.cells[c] = Term{fmt.Sprintf("((as const %s) false)", arraySort(ks, SBool)), arraySort(ks, SBool)}
+			cc := e.newCell("itercount."+x.Name(), types.Typ[types.Int])
+			fr.iterCount[x] = cc
+			st.cells[cc] = tInt(0)
 		} else {
 			st.cells[c] = tInt(0)
 		}
@@ -300,7 +303,7 @@ func (e *Exec) checkNonNil(st *State, p *Ptr, pos token.Pos, what string) {
 			return
 		}
 		e.oblige(st, "safe", "safe.nil@"+what, tNot(tEq(p.Ref, tInt(0))), e.pos(pos))
-		e.assume(st, tNot(tEq(p.Ref, tInt(0))))
+		e.assumeChecked(st, tNot(tEq(p.Ref, tInt(0))))
 	}
 }
 
@@ -654,7 +657,7 @@ func (e *Exec) typeAssert(fr *frame, st *State, x *ssa.TypeAssert) bool {
 		return true
 	}
 	e.oblige(st, "safe", "safe.typeassert", ok, e.pos(x.Pos()))
-	e.assume(st, ok)
+	e.assumeChecked(st, ok)
 	fr.vals[x] = res
 	return true
 }
@@ -665,7 +668,7 @@ func (e *Exec) indexAddr(fr *frame, st *State, x *ssa.IndexAddr) bool {
 	case *types.Slice:
 		s := e.term(fr, st, x.X)
 		e.oblige(st, "safe", "safe.index", tAnd(tLe(tInt(0), idx), tLt(idx, slLen(s))), e.pos(x.Pos()))
-		e.assume(st, tAnd(tLe(tInt(0), idx), tLt(idx, slLen(s))))
+		e.assumeChecked(st, tAnd(tLe(tInt(0), idx), tLt(idx, slLen(s))))
 		fr.vals[x] = &Ptr{Kind: pElem, Ref: slArr(s), Idx: app(SInt, "sidx", s, idx), Root: xt.Elem(), Type: xt.Elem()}
 	case *types.Pointer:
 		at := xt.Elem().Underlying().(*types.Array)
@@ -689,7 +692,7 @@ func (e *Exec) index(fr *frame, st *State, x *ssa.Index) bool {
 	case *types.Basic: // string
 		s := e.term(fr, st, x.X)
 		e.oblige(st, "safe", "safe.index", tAnd(tLe(tInt(0), idx), tLt(idx, app(SInt, "slen", s))), e.pos(x.Pos()))
-		e.assume(st, tAnd(tLe(tInt(0), idx), tLt(idx, app(SInt, "slen", s))))
+		e.assumeChecked(st, tAnd(tLe(tInt(0), idx), tLt(idx, app(SInt, "slen", s))))
 		fr.vals[x] = app(SInt, "sat", s, idx)
 	case *types.Array:
 		a := e.term(fr, st, x.X)
@@ -722,7 +725,7 @@ func (e *Exec) slice(fr *frame, st *State, x *ssa.Slice) bool {
 		}
 		cond := tAnd(tLe(tInt(0), lo), tLe(lo, hi), tLe(hi, app(SInt, "slen", s)))
 		e.oblige(st, "safe", "safe.slice", cond, e.pos(x.Pos()))
-		e.assume(st, cond)
+		e.assumeChecked(st, cond)
 		fr.vals[x] = app(SStr, "ssub", s, lo, hi)
 	case *types.Slice:
 		s := e.term(fr, st, x.X)
@@ -734,7 +737,7 @@ func (e *Exec) slice(fr *frame, st *State, x *ssa.Slice) bool {
 		}
 		cond := tAnd(tLe(tInt(0), lo), tLe(lo, hi), tLe(hi, mx), tLe(mx, slCap(s)))
 		e.oblige(st, "safe", "safe.slice", cond, e.pos(x.Pos()))
-		e.assume(st, cond)
+		e.assumeChecked(st, cond)
 		r := mkSlice(slArr(s), tAdd(slOff(s), lo), tSub(hi, lo), tSub(mx, lo))
 		if e.quant == 0 {
 			r = e.smt.define("slice", r)
@@ -770,10 +773,33 @@ type mapComps struct {
 	keySort, elemSort string
 }
 
+// wfInitialMap: at function entry every value stored in a map of this type is well typed (references
+// allocated before entry).
+func (e *Exec) wfInitialMap(mt *types.Map) {
+	mc := e.mapComps(mt)
+	key := "wf:" + mc.val
+	if e.smt.axiomDone[key] || e.entryAlloc.S == "" {
+		return
+	}
+	e.smt.axiomDone[key] = true
+	valSym := "H." + smtIdent(mc.val) + "!0"
+	domSym := "H." + smtIdent(mc.dom) + "!0"
+	e.smt.declare(valSym, arraySort(SInt, mc.valSort))
+	e.smt.declare(domSym, arraySort(SInt, mc.domSort))
+	tmp := &State{alloc: e.entryAlloc}
+	sel := Term{fmt.Sprintf("(select (select %s wm) wk)", valSym), mc.elemSort}
+	f := e.wellTyped(tmp, mt.Elem(), sel)
+	if f.S == "true" {
+		return
+	}
+	e.smt.axioms = append(e.smt.axioms, fmt.Sprintf("(assert (forall ((wm Int) (wk %s)) (! (=> (and (< 0 wm) (<= wm %s) (select (select %s wm) wk)) %s) :pattern (%s))))", mc.keySort, e.entryAlloc.S, domSym, f.S, sel.S))
+}
+
 func (e *Exec) mapComps(mt *types.Map) mapComps {
 	ks := e.ti.sortOf(mt.Key())
 	vs := e.ti.sortOf(mt.Elem())
-	base := "M." + smtIdent(ks) + "." + smtIdent(vs)
+	// keyed by the Go map type: maps of different types never alias
+	base := "M." + typeShort(mt)
 	return mapComps{dom: base + ".dom", val: base + ".val", card: base + ".card", domSort: arraySort(ks, SBool), valSort: arraySort(ks, vs), keySort: ks, elemSort: vs}
 }
 
@@ -786,6 +812,7 @@ func (e *Exec) lookup(fr *frame, st *State, x *ssa.Lookup) bool {
 		m := e.term(fr, st, x.X)
 		k := e.term(fr, st, x.Index)
 		mc := e.mapComps(mt)
+		e.wfInitialMap(mt)
 		dom := tSelect(e.heapComp(st, mc.dom, SInt, arraySort(SInt, mc.domSort)), m, mc.domSort)
 		val := tSelect(e.heapComp(st, mc.val, SInt, arraySort(SInt, mc.valSort)), m, mc.valSort)
 		// nil map: reads yield zero
@@ -856,6 +883,14 @@ func (e *Exec) mapLen(st *State, mt *types.Map, m Term) Term {
 		k := "k"
 		e.assume(st, Term{fmt.Sprintf("(=> (= %s 0) (forall ((%s %s)) (! (not (select %s %s)) :pattern ((select %s %s)))))", card.S, k, mc.keySort, dom.S, k, dom.S, k), SBool})
 		e.assume(st, Term{fmt.Sprintf("(forall ((%s %s)) (! (=> (select %s %s) (> %s 0)) :pattern ((select %s %s))))", k, mc.keySort, dom.S, k, card.S, dom.S, k), SBool})
+		// a non-empty map has a key (witness function)
+		wf := "mapwit." + smtIdent(mc.keySort)
+		e.smt.declareFun(wf, []string{mc.domSort}, mc.keySort)
+		e.assume(st, Term{fmt.Sprintf("(=> (> %s 0) (select %s (%s %s)))", card.S, dom.S, wf, dom.S), SBool})
+		// ... and a map with at least two entries has two distinct keys
+		wf2 := "mapwit2." + smtIdent(mc.keySort)
+		e.smt.declareFun(wf2, []string{mc.domSort}, mc.keySort)
+		e.assume(st, Term{fmt.Sprintf("(=> (> %s 1) (and (select %s (%s %s)) (not (= (%s %s) (%s %s)))))", card.S, dom.S, wf2, dom.S, wf2, dom.S, wf, dom.S), SBool})
 	}
 	return tIte(tEq(m, tInt(0)), tInt(0), card)
 }
@@ -897,6 +932,16 @@ func (e *Exec) next(fr *frame, st *State, x *ssa.Next) bool {
 	v := tSelect(val, k, mc.elemSort)
 	e.assume(st, tImp(okT, e.wellTyped(st, mt.Elem(), v)))
 	st.cells[posCell] = e.smt.define("visited", tIte(okT, tStore(vis, k, tTrue), vis))
+	if cc := fr.iterCount[rng]; cc != nil {
+		cnt := st.cells[cc].(Term)
+		// D6: a map that is not modified while being ranged over yields exactly len(m) iterations
+		if !mapModifiedInLoop(x, mt) {
+			cardH := e.heapComp(st, mc.card, SInt, arraySort(SInt, SInt))
+			card := tIte(tEq(m, tInt(0)), tInt(0), tSelect(cardH, m, SInt))
+			e.assume(st, tAnd(tLe(cnt, card), tImp(tNot(okT), tEq(cnt, card)), tImp(okT, tLt(cnt, card))))
+		}
+		st.cells[cc] = e.smt.define("itercount", tIte(okT, tAdd(cnt, tInt(1)), cnt))
+	}
 	fr.vals[x] = &Tuple{[]Value{okT, k, v}}
 	return true
 }
@@ -1064,4 +1109,37 @@ func (e *Exec) constArray(sort string, v Term) Term {
 	e.smt.declare(name, sort)
 	e.smt.axiom("zarr:"+name, fmt.Sprintf("(assert (forall ((i Int)) (! (= (select %s i) %s) :pattern ((select %s i)))))", name, v.S, name))
 	return Term{name, sort}
+}
+
+// mapModifiedInLoop: does the function containing the Next instruction update or delete from a map
+// of this type anywhere (conservative syntactic check)?
+func mapModifiedInLoop(n *ssa.Next, mt *types.Map) bool {
+	fn := n.Parent()
+	for _, b := range fn.Blocks {
+		for _, in := range b.Instrs {
+			switch x := in.(type) {
+			case *ssa.MapUpdate:
+				if types.Identical(x.Map.Type().Underlying(), mt) {
+					return true
+				}
+			case *ssa.Call:
+				if bi, ok := x.Call.Value.(*ssa.Builtin); ok && bi.Name() == "delete" {
+					if types.Identical(x.Call.Args[0].Type().Underlying(), mt) {
+						return true
+					}
+				}
+			}
+		}
+	}
+	return false
+}
+
+// assumeChecked: after a safety obligation has been emitted, the condition may be assumed for the
+// rest of the path.  In specification code no safety obligation is emitted, so nothing is assumed
+// (otherwise a clause like `m.field == x` would silently assume m != nil).
+func (e *Exec) assumeChecked(st *State, c Term) {
+	if e.spec > 0 {
+		return
+	}
+	e.assume(st, c)
 }
